@@ -421,6 +421,9 @@ def main(argv):
         shutil.rmtree(scratch, ignore_errors=True)
 
 
+REPLAY_CAP = 4
+
+
 def run_property(prop, tier, seed, scratch, a):
     t_start = time.time()
     jobs = select_jobs(prop, tier, a.only)
@@ -502,6 +505,7 @@ def run_property(prop, tier, seed, scratch, a):
     violations = []
     known_lines = []
     inconclusive = []
+    further = []
     replays_run = 0
     for job, r in results:
         if r["status"] == "pass":
@@ -523,6 +527,14 @@ def run_property(prop, tier, seed, scratch, a):
                     return None
                 unk = [f for f in failed if kn(f) is None]
                 kns = [(f, kn(f)) for f in failed if kn(f) is not None]
+                if len(violations) >= REPLAY_CAP:
+                    # enough natively reproduced violations to report: further counterexamples are listed, not replayed
+                    r["replay"] = {"skipped": "replay cap reached (%d reproduced violations already)" % len(violations)}
+                    for f, k in kns:
+                        known_lines.append("KNOWN-FINDING: property=%s %s [%s; harness %s, check \"%s\"; playback skipped]" % (prop, k["what"], k["id"], job.name, f["desc"]))
+                    if unk:
+                        further.append("%s: %s" % (job.id, "; ".join(f["desc"] for f in unk)[:200]))
+                    continue
                 rep = replay_kani(job, scratch, prop)
                 replays_run += rep["generated"]
                 r["replay"] = {k: rep[k] for k in ("reproduced", "release", "generated")}
@@ -540,6 +552,10 @@ def run_property(prop, tier, seed, scratch, a):
                         inconclusive.append("%s: counterexample for %s did not reproduce on the native build (%s)" % (
                             job.id, [f["desc"] for f in unk], rep.get("detail", rep.get("detail_dev", "tests passed natively"))))
             else:
+                if len(violations) >= REPLAY_CAP and not any(k.get("status") == "open" and k.get("harness") == job.harness for k in known):
+                    r["replay"] = {"skipped": "replay cap reached (%d reproduced violations already)" % len(violations)}
+                    further.append("%s: %s" % (job.id, "; ".join(sorted(set(e["label"] for e in r.get("sat", []))))[:200]))
+                    continue
                 from rsxdrv import triage_rsx
                 v, kl, inc, nrep = triage_rsx(prop, job, r, known, scratch)
                 replays_run += nrep
@@ -563,6 +579,8 @@ def run_property(prop, tier, seed, scratch, a):
         for job, failed, path in violations:
             say("  counterexample in %s: %s" % (job.id, "; ".join(f["desc"] for f in failed)[:400]))
             say("VIOLATION property=%s replay=%s" % (prop, path))
+        for l in further[:40]:
+            say("  further counterexample (not replayed, %d violations already reproduced): %s" % (len(violations), l))
         return 1
     if inconclusive:
         for l in inconclusive:
